@@ -15,7 +15,6 @@ package c04
 import (
 	"fmt"
 	"os"
-	"runtime/debug"
 	"strings"
 	"sync"
 	"time"
@@ -171,7 +170,7 @@ var styles = []struct {
 
 func run(r *evid.Run) {
 	full := !r.Quick()
-	defer debug.SetGCPercent(debug.SetGCPercent(400))
+	defer c03.TuneGC()()
 	x := &runner{r: r, eng: c03.NewEngine(), n: map[string]int{}}
 	maxChain := 2
 	if full {
@@ -324,8 +323,8 @@ func run(r *evid.Run) {
 			lastR := last.Render(c03.Style{})
 			var lastImg bufimage.Image
 			var err error
-			if len(ch) < 3 {
-				lastImg, err = x.eng.CachedImage(lastR) // prefixes are shared by many chains
+			if len(ch) == 1 {
+				lastImg, err = x.eng.CachedImage(lastR) // reused as the S1 prefix of longer chains
 			} else {
 				lastImg, err = x.eng.Image(lastR)
 			}
